@@ -58,7 +58,7 @@ def regen_consts():
     """Regenerate Afkak/Generated/Consts.lean from /repo's working tree. Returns (changed, problems)."""
     from harness import extract_consts
 
-    return extract_consts.regenerate(REPO, os.path.join(LEAN, "Afkak", "Generated", "Consts.lean"))
+    return extract_consts.regenerate(REPO, os.path.join(LEAN, "Afkak", "Generated"))
 
 
 def lake_build(targets, timeout=1500):
